@@ -58,6 +58,9 @@ class ExcelInPython:
             
             return isinstance(other, self.__class__)
         
+        def __ne__(self, other: Any) -> bool:
+            return not self.__eq__(other)
+
         def __lt__(self, other: Any) -> bool:
             if isinstance(other, (datetime.date, datetime.datetime)):
                 # Ну вот так excel себя чувствует, пустая ячейка меньше любой даты
@@ -112,10 +115,17 @@ class ExcelInPython:
     def _compare(self, operator: str, left_operand: str | int | float | datetime.date | datetime.datetime,
                           right_operand: str | int | float | datetime.date | datetime.datetime) -> bool:
         try:
+            if isinstance(left_operand, float) or isinstance(right_operand, float):
+                # int() would drop the fractional part: 1.5 < 1.7 must not become 1 < 1
+                raise ValueError
             return self._by_operator(operator, int(left_operand), int(right_operand))
         except (ValueError, TypeError):
             try:
-                return self._by_operator(operator, float(left_operand), float(right_operand))
+                left_number, right_number = float(left_operand), float(right_operand)
+                if left_number != left_number or right_number != right_number:
+                    # the text "nan" is not a number
+                    raise ValueError
+                return self._by_operator(operator, left_number, right_number)
             except (ValueError, TypeError):
                 try:
                     # Приводим date к datetime для удобного сравнения
